@@ -1,3 +1,8 @@
+#[cfg(lbfs_torrent_bootstrap_verif)]
+use std::{collections::{HashMap, HashSet}, io::{Read, Seek, SeekFrom}, os::unix::fs::MetadataExt, path::{Path, PathBuf}, sync::Arc};
+#[cfg(lbfs_torrent_bootstrap_verif)]
+use crate::verif_shim::fs::{File, OpenOptions};
+#[cfg(not(lbfs_torrent_bootstrap_verif))]
 use std::{
     collections::{HashMap, HashSet}, fs::{File, OpenOptions}, io::{Read, Seek, SeekFrom}, os::unix::fs::MetadataExt, path::{Path, PathBuf}, sync::Arc
 };
